@@ -184,7 +184,13 @@ def make(rng):
             return which, (lambda: Plain(a, b)), [("a", a), ("b", b)], [a, b]
         if which == "SlotsOnly":
             return which, (lambda: SlotsOnly(a, c)), [("a", a), ("c", c)], [a, c]
-        kw = {"m": a, "n": b}
+        # vars-only instances of ONE class differ in which public attributes they carry and in which order (types.SimpleNamespace too)
+        names = rng.sample(["m", "n", "o", "p", "q"], rng.randrange(0, 5))
+        kw = {k: rng.choice([a, b, c]) for k in names}
+        if rng.random() < 0.3:
+            import types as _types
+
+            return "SimpleNamespace", (lambda: _types.SimpleNamespace(**kw)), list(kw.items()), list(kw.values())
         return which, (lambda: VarsOnly.of(**kw)), list(kw.items()), list(kw.values())
     if r < 0.60:
         # re-iterable collections of pairs / non-pairs
